@@ -256,8 +256,16 @@ class Ctx:
             self.obligations.append(("corr:" + name, False, "oracle failed"))
             self.broken.append("corr:" + name)
             return []
-        mism = [(i, e, o) for i, e, o in zip(ins, exp, outs) if e != o]
+        # an oracle answer "(outside-fragment <construct>)" means the input is outside the modelled
+        # fragment of that stream: counted, never compared
+        outside = [e for e in exp if e.startswith("(outside-fragment")]
+        for e in outside:
+            k = name.split("/")[0] + ":outside-fragment." + e[len("(outside-fragment"):].strip(" )")
+            self.stats[k] = self.stats.get(k, 0) + 1
+        mism = [(i, e, o) for i, e, o in zip(ins, exp, outs) if e != o and not e.startswith("(outside-fragment")]
         info.update(cases=len(ins), mismatches=len(mism), direct_violations=len(vio))
+        if outside:
+            info["outside_fragment"] = len(outside)
         self.evaluations += len(ins)
         for i, o in zip(ins, outs):
             if nontrivial is None or nontrivial(i, o):
